@@ -47,8 +47,10 @@ def run(model, rep):
         ok_stmt = isinstance(s, ast.Assign) and not [c for c in ast.walk(s.value) if isinstance(c, (ast.Call, ast.Subscript, ast.Attribute, ast.BinOp))]
         if not ok_stmt:
             before.append(src(s)[:50])
-    rep.check(isinstance(a0, ast.Name) and a0.id == srcp and defs.get(srcp) == ['<param>'] and not in_try and not cond and not before, 'C08.PASS', mi.loc(first), src(first),
-              'source parsed first, outside any try, unconditionally', 'the interpreter\'s SyntaxError cannot reach the caller unchanged (in try: %s, conditions: %s, statements that may raise before it: %s)' % (in_try, cond, before),
+    # every normal return of minify is dominated by the parse (the parse cannot be skipped on some path)
+    always = all(('<did:%s>' % src(first.func), True) in f for (_r, f) in P.F.returns)
+    rep.check(isinstance(a0, ast.Name) and a0.id == srcp and defs.get(srcp) == ['<param>'] and not in_try and always, 'C08.PASS', mi.loc(first), src(first),
+              'the source argument itself is parsed, outside any try, on every path to a return', 'the interpreter\'s SyntaxError cannot reach the caller unchanged (in try: %s, parsed on every path: %s)' % (in_try, always),
               key='C08.PASS|parse')
     # no handler in minify swallows SyntaxError
     for t in [n for n in walk_own(mi.node) if isinstance(n, ast.Try)]:
